@@ -12,7 +12,7 @@ PROPERTY = 'C07'
 LEVEL = 'exploration'
 RULE = ('all connected graphs with <= 6 nodes (NetworkX graph atlas) x every choice of one distinguished edge x order in '
         '{0,2,3,4} (all other edges single) + the all-single assignment + random order assignments, each under random '
-        'relabelings (shuffled integer keys / insertion orders, string keys) and random names; plus random connected graphs '
+        'relabelings (shuffled integer keys / insertion orders, string keys), random names and the orders stored as int, integral float, numpy int64 or float64; plus random connected graphs '
         'up to 30 (thorough: 60) nodes with orders 0-4 and >= 10 ring closures; 4 % of the round trips follow a writer call that failed half-way. Oracle: read_cgsmiles(write_cgsmiles_graph(G)) '
         'is isomorphic to G on fragname and order; the written string is also parsed by the independent reference reader to '
         'tell a writer fault from a reader fault. distinct = (graph id or size class, distinguished-edge role, order); '
@@ -64,7 +64,10 @@ def make_case(rng, g0, orders, relabel, gid):
     rng.shuffle(ins)
     edges = [(m[a], m[b], orders[frozenset((a, b))]) for a, b in g0.edges]
     rng.shuffle(edges)
-    return dict(nodes=[[m[n], rng.choice(NAMES)] for n in ins], edges=[list(e) for e in edges], gid=gid)
+    # the number type of an order is the caller's: int, or an integral float / numpy number (orders taken from RDKit's
+    # GetBondTypeAsDouble, a numpy array or a JSON file) - equal to the int as a dictionary key
+    return dict(nodes=[[m[n], rng.choice(NAMES)] for n in ins], edges=[list(e) for e in edges], gid=gid,
+                order_type=rng.choice(['int', 'int', 'int', 'float', 'np.int64', 'np.float64']))
 
 
 def cases(seed, tier, shard, nshards):
@@ -133,8 +136,16 @@ def build(case):
     g = nx.Graph()
     for key, name in case['nodes']:
         g.add_node(key, fragname=name)
+    ot = case.get('order_type', 'int')
+    if ot == 'float':
+        cast = float
+    elif ot.startswith('np.'):
+        import numpy as np
+        cast = getattr(np, ot[3:])
+    else:
+        cast = int
     for a, b, o in case['edges']:
-        g.add_edge(fresh(a), fresh(b), order=o)
+        g.add_edge(fresh(a), fresh(b), order=cast(o))
     return g
 
 
@@ -270,4 +281,4 @@ def run(case):
     nonsingle = any(o != 1 for _, _, o in case['edges'])
     orders = tuple(sorted({o for _, _, o in case['edges']}))
     return {'violations': viol, 'nontrivial': nonsingle, 'sample': s or case, 'counters': counters,
-            'cls': (case['gid'], case['assign'], tuple(case['features']), orders if case['assign'] != 'random' else len(case['edges']))}
+            'cls': (case['gid'], case['assign'], case.get('order_type', 'int'), tuple(case['features']), orders if case['assign'] != 'random' else len(case['edges']))}
